@@ -82,7 +82,10 @@ class Scenario:
             ctx.res.count("destinations_opened_through_non_normalised_path")
         self.dest = self._mk_dest()
 
+    dest_cfg: dict = {}  # configuration every destination of this scenario is created with (set by the caller)
+
     def _mk_dest(self, **cfg):
+        cfg = {**self.dest_cfg, **cfg}
         if self.dest_kind == "remote":
             from .monitors import FaultyFS
 
